@@ -90,6 +90,21 @@ def correspondence(ctx):
     return res
 
 
+def search(ctx, unexplained):
+    """Wider hunt with the direct oracle (thorough generator)."""
+    ctx2 = dict(ctx, tier="thorough")
+    jobs = build(ctx2, "thorough")[:400]
+    hist = worlds.run_histories([("h%d" % i, w, steps) for i, w, steps in jobs])
+    out = []
+    for i, w, steps in jobs:
+        bad = check_history(w, hist["h%d" % i])
+        if bad:
+            out.append({"scenario": runprops.Scenario("hist", ctx["seed"], i, {"steps": len(steps)}).ident(), "violated_clause": bad, "world": runprops.describe_world(w)})
+            if len(out) >= 3:
+                break
+    return out
+
+
 def replay(ctx, payload):
     vlib.build_harness()
     ctx["driver"] = vlib.build_driver()
